@@ -146,6 +146,14 @@ func (vc *VC) modLocs(fi *FuncInfo, items []*ModItem, args []SV, st *State) []Lo
 		}
 		inner := *v.Box
 		t := v.BoxT
+		if m.AllKind {
+			if _, ok := t.Underlying().(*types.Map); !ok {
+				vc.fail("modifies allmaps(%s): not a map", m.Expr)
+			}
+			mi := vc.eng.mapInfoOf(t)
+			out = append(out, Loc{Space: 'M', TK: mi.Key, Ref: "*", Desc: "allmaps(" + m.Expr + ")"})
+			continue
+		}
 		if m.All2 {
 			mt, ok := t.Underlying().(*types.Map)
 			if !ok {
@@ -209,6 +217,13 @@ func (vc *VC) applyContract(fr *Frame, callee *ssa.Function, fi *FuncInfo, args 
 		}
 		if !held {
 			vc.oblige("call.holds:"+cname+":"+h, []string{"C08"}, "false")
+		}
+	}
+	// interference: a function verified with `yields` runs among other goroutines, so
+	// before each atomic step they may have changed whatever that step's lock guards
+	if rfi := vc.fi; rfi != nil {
+		if _, y := rfi.C.Attrs["yields"]; y {
+			vc.yieldBefore(fi, cargs, cname)
 		}
 	}
 	pre := vc.st.clone()
@@ -868,4 +883,40 @@ func (vc *VC) mkQuant(q string, binders, vars []string, body string) string {
 	}
 	vc.quants[t] = &quantInfo{q: q, binders: binders, vars: vars, body: body}
 	return t
+}
+
+// yieldBefore havocs the state guarded by the lock that makes callee fi atomic,
+// subject to the lock invariant (a yield point of the Owicki-Gries style proof).
+func (vc *VC) yieldBefore(fi *FuncInfo, cargs []SV, cname string) {
+	var owner SV
+	var ot types.Type
+	if fi.C.LockOf != nil {
+		v := vc.evalValueFunc(fi.C.LockOf.GoName, fi.C.Pkg, cargs, vc.st, vc.st)
+		if v.Box == nil {
+			return
+		}
+		owner, ot = *v.Box, v.BoxT
+	} else if _, ok := fi.C.Attrs["atomic"]; ok && len(cargs) > 0 && fi.Obj.Type().(*types.Signature).Recv() != nil {
+		owner, ot = cargs[0], fi.Obj.Type().(*types.Signature).Recv().Type()
+	} else {
+		return
+	}
+	pt, ok := ot.Underlying().(*types.Pointer)
+	if !ok {
+		return
+	}
+	tk := typeKey(pt.Elem())
+	vc.eng.tkTypes[tk] = pt.Elem()
+	li := vc.eng.lockInvFor(&LVal{TK: tk})
+	if li == nil {
+		return
+	}
+	// locks this goroutine holds protect their state from interference
+	self := SV{L: []string{owner.L[0]}}
+	for _, l := range vc.guardLocs(li, self) {
+		vc.havocLoc(l)
+	}
+	g := vc.evalClause(li.GoName, li.Pkg, []SV{self}, vc.st, vc.entry)
+	vc.assume(g)
+	vc.noteAssumption("yields: other goroutines may change lock-guarded state between the atomic steps of this function (subject to the lock invariants)")
 }
